@@ -9,6 +9,7 @@ import (
 	"sync"
 
 	"github.com/ipld/go-storethehash/store/types"
+	"github.com/ipld/go-storethehash/store/vhook"
 )
 
 const CIDSizePrefix = 4
@@ -195,6 +196,7 @@ func (cp *FreeList) ToGC() (string, error) {
 	cp.flushLock.Lock()
 	defer cp.flushLock.Unlock()
 
+	vhook.Point("fl.togc.locked")
 	// Flush any buffered data and close the file. Safe to do with flushLock
 	// acquired.
 	cp.writer.Flush()
@@ -203,6 +205,7 @@ func (cp *FreeList) ToGC() (string, error) {
 	if err != nil {
 		return "", err
 	}
+	vhook.Point("fl.togc.afterRename")
 
 	cp.file, err = os.OpenFile(fileName, os.O_RDWR|os.O_APPEND|os.O_CREATE, 0o644)
 	if err != nil {
